@@ -28,6 +28,9 @@ def shards(tier, seed):
 
 
 def cases(shard, rnd):
+    if shard['i'] == 1:
+        yield {'deep_probe': True, 'mask': 4, 'props': {}, 'size': 1,
+               'ch': 1}
     for mask in range(shard['i'], 8192, shard['n']):
         for d in range(shard['draws']):
             yield {'mask': mask, 'props': gf.props_for_mask(rnd, mask),
@@ -95,8 +98,56 @@ def expected_props(props):
     return exp
 
 
+def _deep_probe(case, rec):
+    """A headers table as deep as the library's own encoder accepts must
+    come back from its decoder (whatever the recursion limit, however many
+    Python frames either side spends per nesting level)."""
+    from pamqp import commands, header
+    for via in ('F', 'AF'):
+        def enc(depth):
+            c = call(commands.Basic.Properties,
+                     headers=common.chain(depth, via))
+            return common.lib_marshal(
+                header.ContentHeader(0, 1, c.value), 1) if c.ok else c
+        lo = common.deepest_accepted(enc)
+        if lo is None:
+            rec.violation('encode-refused:shallow-nesting', 'a headers table '
+                          'nested 8 deep is refused', case)
+            return
+        rec.maxi('deepest_encodable_nesting', lo)
+        for depth in common.probe_depths(lo):
+            rec.ev()
+            m = enc(depth)
+            if not m.ok:
+                continue
+            u = common.lib_unmarshal(m.value)
+            got = u.value[2].properties.headers if u.ok and \
+                boundary.kind_of(u.value[2]) == 'header' else None
+            if not u.ok or common.chain_depth(got) != depth or \
+                    u.value[0] != len(m.value):
+                rec.violation('decode-failed-deep:%s' % (
+                    u.exc_type or ('budget' if not u.ok else 'mismatch')),
+                    'content header whose headers table nests %d deep (the '
+                    'encoder accepts up to %d, via %s): marshal succeeds, '
+                    'unmarshal %s' % (depth, lo, via, u.describe()[:120]
+                                      if not u.ok else 'gives another '
+                                      'value'), case)
+                return
+            m2 = common.lib_marshal(u.value[2], 1)
+            if not m2.ok or m2.value != m.value:
+                rec.violation('reencode-differs:deep', 'decoded header with '
+                              'headers nested %d deep does not re-encode to '
+                              'the same bytes' % depth, case)
+                return
+            rec.count('deepest_roundtrips')
+            rec.nt(canon.digest(('deep', via, depth)))
+
+
 def run_case(case, rec):
     from pamqp import commands, header
+    if case.get('deep_probe'):
+        _deep_probe(case, rec)
+        return
     rec.ev()
     props, size, ch = case['props'], case['size'], case['ch']
     if case.get('prefix'):
